@@ -116,6 +116,9 @@ type searchCfg struct {
 	// ex: "" = full exploration; "checks" = captures and checking moves (a predicate that looks at the board
 	// after the move)
 	ex string
+	// fork: run the searches on a Fork() of the board (as Engine.Analyze does); by C08 the fork carries
+	// the same game, so model and specification are the ones of the board itself
+	fork bool
 }
 
 // checksOrCaptures explores captures (en passant included) and moves that give check.
@@ -194,6 +197,9 @@ func runSearchCase(c *caseCtx, zt *board.ZobristTable, zseed int64, fenStr strin
 		s = search.AlphaBeta{Explore: explore, Eval: search.Quiescence{Explore: capturesOnly, Eval: search.Leaf{Eval: eval.Material{}}}}
 	} else {
 		s = search.AlphaBeta{Explore: explore, Eval: search.Leaf{Eval: eval.Material{}}}
+	}
+	if cfg.fork {
+		b = b.Fork()
 	}
 	inner := makeTT(cfg.tt)
 	var results []string
@@ -436,6 +442,17 @@ func casesSearch(c *caseCtx, prop string) {
 			}
 			runSearchCase(c, zt, zseed, f, nil, cfg)
 		}
+		// searches on a forked board whose history repeats the set-up position / the position after the last
+		// irreversible move (the third occurrence lies inside the tree)
+		for _, q := range []bool{false, true} {
+			cfgf := full
+			cfgf.depths = []int{1, 2, 3}
+			cfgf.quiet = q
+			cfgf.fork = true
+			runSearchCase(c, zt, zseed, "1n4k1/8/8/8/8/8/8/1N1Q2K1 w - - 0 1", strings.Fields("b1c3 b8c6 c3b1 c6b8 b1c3 b8c6 c3b1"), cfgf)
+			runSearchCase(c, zt, zseed, "1n4k1/8/8/8/8/8/4P3/1N1Q2K1 w - - 0 1", strings.Fields("e2e4 b8c6 b1c3 c6b8 c3b1 b8c6 b1c3 c6b8 c3b1 b8c6 b1c3"), cfgf)
+			runSearchCase(c, zt, zseed, "3k4/8/3K4/8/8/8/8/R7 w - - 0 1", strings.Fields("a1a2 d8c8 a2a1 c8d8 a1a2 d8c8 a2a1"), cfgf)
+		}
 		// histories: repetition inside the tree / draw claimable at the root
 		cfg := full
 		cfg.depths = []int{2, 3}
@@ -479,6 +496,8 @@ func casesSearch(c *caseCtx, prop string) {
 				runSearchCase(c, zt, zseed, f, nil, cfg)
 			}
 		}
+		// the true value of a new game does not depend on what the engine searched in the game before
+		engineResetTableChecks(c, "C13")
 		// one table kept along a game with repetitions: the root is searched, the pieces shuffle out and
 		// back twice, the root is searched again - successors that now are third occurrences are worth 0
 		// whatever the table remembers about them
@@ -538,7 +557,7 @@ func casesSearch(c *caseCtx, prop string) {
 		}
 		gameTableChecks(c)
 		consoleTableChecks(c)
-		engineResetTableChecks(c)
+		engineResetTableChecks(c, "C11")
 	case "C12":
 		for i := 0; i < c.scale(25, 400); i++ {
 			f := pick()
@@ -556,6 +575,7 @@ func casesSearch(c *caseCtx, prop string) {
 				runHaltCase(c, zt, zseed, f, cfg, n)
 			}
 		}
+		haltTerminalRoots("C12")
 		// a search halted one move down the line, then the move taken back and the parent searched with the
 		// same table: what the halted search left behind must not change the parent's result either
 		nparent := 0
